@@ -461,11 +461,7 @@ impl PrettyPrinter {
         self.column_widths = self.resize_widths_to_fit(&self.column_widths, &aggregate.columns);
         assert!(self.fits_within_term_agg(), "{:?}", self.column_widths);
         let mut header = aggregate.columns.iter().map(|column_name| {
-            format!(
-                "{:width$}",
-                column_name,
-                width = self.column_widths[column_name]
-            )
+            format_with_ellipsis(column_name.as_str(), self.column_widths[column_name])
         });
         let header = header.join("");
         let header_len = header.len();
